@@ -88,6 +88,16 @@ def run(pid: str, tier: str, seed: int) -> int:
         ctx.broken.extend(broken_from_log(pid, log))
     for h in grep_forbidden():
         ctx.broken.append("forbidden construct: " + h)
+    if tier == "thorough" and ok:
+        # independent re-check of the compiled theorems by Lean's external checker
+        import subprocess
+        try:
+            r = subprocess.run(["lake", "env", "leanchecker", f"JumanjiModel.Props.{pid}"], cwd=common.LEAN_DIR, capture_output=True, text=True, timeout=3000)
+            ctx.coverage_extra["leanchecker"] = "ok" if r.returncode == 0 else (r.stdout + r.stderr)[-400:]
+            if r.returncode != 0:
+                ctx.broken.append("leanchecker rejects JumanjiModel.Props." + pid + ": " + (r.stdout + r.stderr)[-300:])
+        except subprocess.TimeoutExpired:
+            ctx.coverage_extra["leanchecker"] = "timeout (not a verdict)"
     ctx.coverage_extra["theorems"] = [n.split(".")[-1] for n in names]
     # 4./5. correspondence and always-on search against the real code
     mod = importlib.import_module(f"props.{pid.lower()}")
